@@ -244,6 +244,27 @@ def cuqiarray_conversions(c, kind):
     c.eq('numpy_bool_flag:funvals_of_function_values_is_identity', np.asarray(fn.funvals), g.par2fun(p))
 
 
+def memory_layouts(c, kind):
+    """function values handed to the 2-D geometries in the memory layouts numpy / scipy produce (C order, Fortran order, a transposed view): fun2par / fun2vec
+    depend on the VALUES f[i, j] only - the same parameter vector for every layout, and par2fun(fun2par(f)) == f (bounded stand-in: native; memory layout is
+    a property of numpy arrays, outside the symbolic domain)"""
+    g = make(kind); shp = tuple(int(v) for v in g.fun_shape)
+    Fv = np.array([c.real(f'f{i}') for i in range(int(np.prod(shp)))]).reshape(shp)
+    ref = np.asarray(g.fun2par(np.ascontiguousarray(Fv)))
+    order = 'F' if kind.endswith(':F') else 'C'
+    c.eq('c_ordered_input:fun2par_is_the_flattening_in_the_geometrys_order', ref, Fv.ravel(order=order), tol=0)
+    for nm, lay in (('fortran_ordered', np.asfortranarray), ('transposed_view', lambda a: np.ascontiguousarray(a.T).T)):
+        Fl = lay(Fv)
+        c.holds(f'harness:{nm}_input_really_has_that_layout', (not Fl.flags['C_CONTIGUOUS']) or min(shp) == 1)
+        c.eq(f'{nm}_input:fun2par_same_parameters', np.asarray(g.fun2par(Fl)), ref, tol=0)
+        c.eq(f'{nm}_input:par2fun_inverts', np.asarray(g.par2fun(g.fun2par(Fl))), Fv, tol=0)
+        try: v0 = np.asarray(g.fun2vec(np.ascontiguousarray(Fv)))
+        except NotImplementedError: v0 = None                        # (this geometry offers no vectorised-function form)
+        if v0 is not None: c.eq(f'{nm}_input:fun2vec_same_vector', np.asarray(g.fun2vec(Fl)), v0, tol=0)
+        B = np.stack([Fl, 2 * Fl], axis=-1)
+        c.eq(f'{nm}_input:batch_column_1', np.asarray(g.fun2par(B))[..., 1], 2 * ref, tol=0)
+
+
 def maps_not_offered(c):
     """'every geometry that OFFERS a function-to-parameter map': where none is offered the call is refused - a mapped geometry without inverse map, a
     visual-only image (identity in both directions), the abstract base class - instead of returning something that is not the parameters"""
@@ -293,5 +314,8 @@ def jobs(tier):
     for kind in ('KL:6:3', 'KL:8:8', 'Mapped:KL') + (() if q else ('KL:16:5',)):
         for k in (0, 2):
             J.append(Job(f'{kind}:roundtrip_and_columnwise:batch={k}', lambda c, kind=kind, k=k: roundtrip(c, kind, k), 'Pbox', fn['KL'], rtol=1e-6, atol=1e-9, timeout=900))
+    for kind in ('Continuous2D', 'Image2D:C', 'Image2D:F', 'Default2D'):
+        J.append(Job(f'{kind}:function_values_in_other_memory_layouts', lambda c, k=kind: memory_layouts(c, k), 'B',
+                     ['cuqi.geometry._geometry:Continuous2D.fun2par', 'cuqi.geometry._geometry:Image2D.fun2par', 'cuqi.geometry._geometry:Geometry.fun2vec'], nnum=3))
     J.append(Job('Mapped:no_inverse_map:fun2par_refused', maps_not_offered, 'Pbox', fn['Mapped'] + ['cuqi.samples._samples:Samples.parameters']))
     return J
